@@ -224,8 +224,86 @@ def scn_model_call(T, scheme):
     return scn
 
 
+MODEL_WRAPPERS = ("constant", "exponential", "skyride", "skygrid", "piecewise_exponential", "linear")
+
+
+def _wrapper_world(kind):
+    """make(indices) for specs.histories.explore: a REAL coalescent model wrapper over a real TimeTreeModel (4 taxa, two cherries whose
+    relative order changes between the height values, serial tips)"""
+    import torchtree.evolution.coalescent as co
+    from torchtree.core.parameter import Parameter
+    from specs import treemodels
+    t64 = lambda v: torch.tensor(v, dtype=torch.float64)
+    names = ["A", "B", "C", "D"]
+    tree = ((0, 1), (2, 3))
+    tips = [0.0, 0.5, 0.0, 1.0]
+    heights = [t64([1.2, 2.0, 3.0]), t64([2.4, 1.5, 3.3]), t64([0.9, 1.1, 4.0]), t64([2.0, 2.2, 2.5])]
+    n_theta = {"constant": 1, "exponential": 1, "skyride": 3, "skygrid": 3, "piecewise_exponential": 1, "linear": 3}[kind]
+    thetas = [t64([2.0, 3.0, 1.5][:n_theta]), t64([0.7, 1.2, 4.0][:n_theta]), t64([5.0, 0.4, 2.2][:n_theta]), t64([1.1, 1.1, 0.3][:n_theta])]
+    growths = [t64([0.3, -0.5, 0.8]), t64([-0.4, 0.9, 0.2]), t64([1.1, 0.1, -0.7]), t64([0.05, 0.6, 0.6])]
+    grid = t64([0.8, 2.1])
+
+    def make(idx):
+        idx = idx or (0, 0, 0)
+        tm, _ = treemodels.build_timetree(tree, names, tips, heights[idx[0]].clone())
+        th = Parameter("theta", thetas[idx[1]].clone())
+        params, values = [tm._internal_heights, th], [heights, thetas]
+        if kind == "constant":
+            m = co.ConstantCoalescentModel("c", th, tm)
+        elif kind == "exponential":
+            g = Parameter("growth", growths[idx[2]][:1].clone())
+            m = co.ExponentialCoalescentModel("c", th, g, tm)
+            params.append(g)
+            values.append([x[:1] for x in growths])
+        elif kind == "skyride":
+            m = co.PiecewiseConstantCoalescentModel("c", th, tm)
+        elif kind == "skygrid":
+            m = co.PiecewiseConstantCoalescentGridModel("c", th, Parameter("grid", grid.clone()), tm)
+        elif kind == "piecewise_exponential":
+            g = Parameter("growth", growths[idx[2]].clone())
+            m = co.PiecewiseExponentialCoalescentGridModel("c", th, g, Parameter("grid", grid.clone()), tm)
+            params.append(g)
+            values.append(growths)
+        else:
+            m = co.PiecewiseLinearCoalescentGridModel("c", th, Parameter("grid", grid.clone()), tm)
+        if len(params) == 2:
+            # explore() indexes every parameter: keep a dummy third slot out
+            pass
+        reads = {"node_heights": (lambda: tm.node_heights)}
+        return (lambda: m()), params, reads, values
+
+    def make_padded(idx):
+        if idx is not None and len(idx) < 3:
+            idx = tuple(idx) + (0,) * (3 - len(idx))
+        return make(idx)
+    return make_padded
+
+
+def ob_wrapper_history(kind, depth):
+    def body():
+        from specs import histories
+        bad, n = histories.explore(_wrapper_world(kind), depth)
+        if bad is not None:
+            hist, got, want = bad
+            raise Refuted("%s coalescent model after the history %s returns %s, a freshly built model holding the current values returns %s" % (kind, hist, got, want),
+                          witness={"kind": kind, "history": hist}, replay={"kind": "custom", "contract": "C08", "func": "replay_wrapper_history", "args": {"kind": kind, "depth": depth}}, confirmed=True)
+        return {"backend": "heap", "cases": n, "statement": "%d histories of parameter / height updates, height reads and evaluations: the %s coalescent model returns the density of the current values" % (n, kind)}
+    return Ob("C08.model.history[%s,depth<=%d]" % (kind, depth), "B", body,
+              clause="the model wrapper returns the Kingman density of the CURRENT parameter values and node heights after every history", funcs=FUNCS)
+
+
+def replay_wrapper_history(args):
+    try:
+        ob_wrapper_history(args["kind"], args["depth"]).fn()
+    except Refuted as e:
+        return False, e.detail
+    return True, "held"
+
+
 def obligations(tier, seed):
     obs = []
+    for kind in MODEL_WRAPPERS:
+        obs.append(ob_wrapper_history(kind, 3 if tier == "quick" else 4))
 
     def add(name, args, clause, factory="scn_coalescent", **kw):
         kw.setdefault("max_paths", 20000)
